@@ -1,7 +1,7 @@
 (* Entry points of the executable model, by name. One dispatcher so that the OCaml driver and
    the in-Coq case files need no per-function glue. *)
 From Coq Require Import ZArith NArith List String Bool.
-From Sia Require Import Prim.Result Prim.Tok Currency.Model Merkle.Tree Merkle.Forest Merkle.Acc.
+From Sia Require Import Prim.Result Prim.Tok Currency.Model Merkle.Tree Merkle.Forest Merkle.Acc Merkle.Rhp.
 Import ListNotations.
 Open Scope string_scope.
 Open Scope list_scope.
@@ -58,8 +58,69 @@ Section Dispatch.
         ++ map (fun q => tbool (contains_leaf H a (fst q) (snd q))) qs)%list
     | None => bad_args
     end.
+  (* ---- C16: RHP Merkle ---- *)
+  Definition p_action : parser action :=
+    let* k := pnat in
+    match k with
+    | O => pret AAppend
+    | S O => let* a := pN in pret (ATrim a)
+    | _ => let* a := pN in let* b := pN in pret (ASwap a b)
+    end.
+  Definition t_obool (o : option bool) : list tok := match o with Some b => [tbool b] | None => [TZ 2; TZ 1] end.
+  Definition api_c16 (name : string) (args : list tok) : option (list tok) :=
+    if name =? "c16.mroot" then
+      option_map (fun ls => [TB (mroot H ls)]) (run_parser (plist pB) args)
+    else if name =? "c16.dataroot" then          (* leaves are 64-byte data blocks *)
+      option_map (fun ls => [TB (mroot H (map (leafh H) ls))]) (run_parser (plist pB) args)
+    else if name =? "c16.sizes" then
+      option_map (fun '(n, s, e) => [tN (range_proof_size n s e)])
+        (run_parser (let* n := pN in let* s := pN in let* e := pN in pret (n, s, e)) args)
+    else if name =? "c16.build_range" then
+      option_map (fun '(ls, s, e) => t_hashes (build_range_proof H ls s e))
+        (run_parser (let* ls := plist pB in let* s := pN in let* e := pN in pret (ls, s, e)) args)
+    else if name =? "c16.verify_range" then
+      option_map (fun '(pr, rr, s, e, n, root) => [tbool (verify_range_proof H pr rr s e n root)])
+        (run_parser (let* pr := plist pB in let* rr := plist pB in let* s := pN in let* e := pN in let* n := pN in let* root := pB in
+                     pret (pr, rr, s, e, n, root)) args)
+    else if name =? "c16.range_subtrees" then
+      option_map (fun '(ls, s, e) => t_hashes (range_subtrees H 200 ls s e))
+        (run_parser (let* ls := plist pB in let* s := pN in let* e := pN in pret (ls, s, e)) args)
+    else if name =? "c16.verify_append" then
+      option_map (fun '(n, th, sr, o, nw) => [tbool (verify_append H n th sr o nw)])
+        (run_parser (let* n := pN in let* th := plist pB in let* sr := pB in let* o := pB in let* nw := pB in pret (n, th, sr, o, nw)) args)
+    else if name =? "c16.build_append" then
+      option_map (fun '(rs, ap) => let r := build_append_proof H rs ap in t_hashes (fst r) ++ [TB (snd r)])
+        (run_parser (let* rs := plist pB in let* ap := plist pB in pret (rs, ap)) args)
+    else if name =? "c16.verify_append_sectors" then
+      option_map (fun '(n, st, ap, o, nw) => [tbool (verify_append_sectors H n st ap o nw)])
+        (run_parser (let* n := pN in let* st := plist pB in let* ap := plist pB in let* o := pB in let* nw := pB in pret (n, st, ap, o, nw)) args)
+    else if name =? "c16.build_diff" then
+      option_map (fun '(acts, rs) => let r := build_diff_proof H acts rs in t_hashes (fst r) ++ t_hashes (snd r) ++ [tN (diff_proof_size acts (N.of_nat (List.length rs)))])
+        (run_parser (let* acts := plist p_action in let* rs := plist pB in pret (acts, rs)) args)
+    else if name =? "c16.verify_diff" then
+      option_map (fun '(acts, n, th, lh, o, nw, ar) => t_obool (verify_diff_proof H acts n th lh o nw ar))
+        (run_parser (let* acts := plist p_action in let* n := pN in let* th := plist pB in let* lh := plist pB in
+                     let* o := pB in let* nw := pB in let* ar := plist pB in pret (acts, n, th, lh, o, nw, ar)) args)
+    else if name =? "c16.build_free" then
+      option_map (fun '(fr, rs) => let r := build_diff_proof H (convert_free_actions fr (N.of_nat (List.length rs))) rs in t_hashes (fst r) ++ t_hashes (snd r))
+        (run_parser (let* fr := plist pN in let* rs := plist pB in pret (fr, rs)) args)
+    else if name =? "c16.verify_free" then
+      option_map (fun '(fr, n, th, lh, o, nw) => t_obool (verify_diff_proof H (convert_free_actions fr n) n th lh o nw []))
+        (run_parser (let* fr := plist pN in let* n := pN in let* th := plist pB in let* lh := plist pB in
+                     let* o := pB in let* nw := pB in pret (fr, n, th, lh, o, nw)) args)
+    else if name =? "c16.free_actions" then
+      option_map (fun '(fr, n) => List.concat (map (fun a => match a with AAppend => [TZ 0] | ATrim x => [TZ 1; tN x] | ASwap x y => [TZ 2; tN x; tN y] end) (convert_free_actions fr n)))
+        (run_parser (let* fr := plist pN in let* n := pN in pret (fr, n)) args)
+    else if name =? "c16.convert_order" then
+      option_map (fun '(pr, i) => t_hashes (convert_proof_ordering pr i))
+        (run_parser (let* pr := plist pB in let* i := pN in pret (pr, i)) args)
+    else None.
+
   Definition api_dispatch (name : string) (args : list tok) : list tok :=
     match api_c15 name args with
+    | Some r => r
+    | None =>
+    match api_c16 name args with
     | Some r => r
     | None =>
     match name, args with
@@ -68,5 +129,5 @@ Section Dispatch.
     | "c05.leafhash", [TB e; TZ i; TZ s] => [TB (leaf_hash H (mkLeaf e (Z.to_N i) (negb (Z.eqb s 0))))]
     | "c05.proofroot", TB x :: TZ i :: ps => [TB (proofRootN H x (Z.to_N i) (List.concat (map (fun t => match t with TB b => [b] | _ => [] end) ps)))]
     | _, _ => bad_args
-    end end.
+    end end end.
 End Dispatch.
